@@ -92,3 +92,84 @@ fn vx_opt_remaining_ge(b: &Option<BufferRef>, n: usize) -> (r: bool)
 {
     match b { Some(x) => x.remaining() >= n, None => true }
 }
+
+// ---- composition of the writer's and the reader's contract (C05 / C06): a 0.7 control packet written by
+//      ControlPacket::write and read back is the same packet, and no warning is raised.  Checked against the two
+//      CONTRACTS only (write is external_body here; its body is verified in unit pkt_write7).  Not covered: a Token
+//      message carrying a real packet token (12 bytes) -- accepting it depends on `header.token != TOKEN_NONE`, a derived
+//      PartialEq on Token that this Verus leaves uninterpreted; the token REQUEST (packet token TOKEN_NONE, 519 bytes)
+//      is covered for acceptance and fields, not for the absence of warnings (same reason).
+fn vx_roundtrip_control<'d, 's, 'e, 't, W: Warn<Warning>>(
+    warn: &mut W,
+    c: &ControlPacket<'d>,
+    token: Token,
+    ack: u16,
+    buffer: BufferRef<'d, 's>,
+    scratch: BufferRef<'e, 't>,
+) where 'd: 'e
+    requires
+        buffer.wf(), buffer.init().len() == 0, buffer.cap() >= 1400,
+        scratch.wf(), scratch.init().len() == 0, scratch.cap() >= 1400,
+        ack < 1024,
+        c is Close ==> c->Close_0@.len() <= 127 && (forall|i: int| 0 <= i < c->Close_0@.len() ==> c->Close_0@[i] != 0),
+        c is Connect ==> c->Connect_0 != TOKEN_NONE,
+        c is Token ==> c->Token_0 != TOKEN_NONE && token == TOKEN_NONE,
+    ensures
+        !(c is Token) ==> (*final(warn)).count() == (*old(warn)).count(),
+{
+    let w = c.write(token, ack, buffer);
+    assert(w.is_ok());
+    let bytes = w.unwrap();
+    proof {
+        assert(PACKETFLAG_CONTROL == 1u8 && PACKETFLAG_CONNLESS == 8u8 && PACKETFLAG_REQUEST_RESEND == 2u8 && PACKETFLAG_COMPRESSION == 4u8) by (compute_only);
+        let f = ph_flags(bytes@[0]);
+        assert(f == 1u8 ==> (f & 2u8 == 0 && f & 4u8 == 0 && f & 8u8 == 0 && f & 1u8 != 0)) by (bit_vector);
+    }
+    let r = Packet::read_impl(warn, bytes, Some(scratch));
+    assert(r.is_ok());
+    match r.unwrap() {
+        Packet::Connless(_) => { assert(false); }
+        Packet::Connected(p) => {
+            assert(p.ack == ack);
+            assert(p.token.0@ =~= token.0@);
+            match p.type_ {
+                ConnectedPacketType::Chunks(_, _, _) => { assert(false); }
+                ConnectedPacketType::Control(c2) => {
+                    assert(c2 is KeepAlive == c is KeepAlive);
+                    assert(c2 is Connect == c is Connect);
+                    assert(c2 is Accept == c is Accept);
+                    assert(c2 is Close == c is Close);
+                    assert(c2 is Token == c is Token);
+                    if let ControlPacket::Connect(rt) = c2 {
+                        assert(rt.0@ =~= c->Connect_0.0@);
+                    }
+                    if let ControlPacket::Token(rt) = c2 {
+                        proof {
+                            let body = bytes@.subrange(8, bytes@.len() as int);
+                            assert(body.subrange(0, 4) =~= c->Token_0.0@);
+                            assert(bytes@.subrange(8, 12) =~= body.subrange(0, 4));
+                        }
+                        assert(rt.0@ =~= c->Token_0.0@);
+                    }
+                    if let ControlPacket::Close(reason) = c2 {
+                        proof {
+                            let m = c->Close_0@;
+                            let n = bytes@.len() as int;
+                            let pl = bytes@.subrange(8, n);
+                            assert(pl =~= m.push(0u8));
+                            if reason@.len() < m.len() {
+                                assert(pl[reason@.len() as int] == m[reason@.len() as int]);
+                            }
+                            if reason@.len() > m.len() {
+                                assert(reason@[m.len() as int] == pl[m.len() as int]);
+                            }
+                            assert(reason@.len() == m.len());
+                            assert(reason@ =~= m);
+                        }
+                        assert(reason@ == c->Close_0@);
+                    }
+                }
+            }
+        }
+    }
+}
